@@ -21,11 +21,12 @@
 
   Parameters (not modelled, DESIGN.md §3.4/§5): `FloatIO` — `sprintf` is Go's fmt.Sprintf of one float directive (the digits),
   `ofInt` is float64(int64), `toInt` is int64(float64).  Everything around them (which letters, the go format string handed
-  over, floatGFormat's restoration of the fraction and its padding) is modelled.  strings.ToUpper/ToLower are modelled for
-  U+0000–U+00FF and as the identity elsewhere (the harness only sends other cased letters implementation-only).
+  over, floatGFormat's restoration of the fraction and its padding) is modelled.  strings.ToUpper/ToLower are Go's simple
+  case mapping over the table regenerated from $GOROOT/src/unicode/tables.go (`Pcore.Generated.caseRanges`).
   Strings are sequences of Unicode scalar values (`List Char`); invalid UTF-8 is outside the model.
   Core-only file (linked into the driver).
 -/
+import Pcore.Generated.UnicodeCase
 namespace Pcore.Format
 
 abbrev Str := List Char
@@ -347,20 +348,11 @@ def applyStringFlags (f : Fmt) (s : Str) (quoted : Bool) : Str :=
 
 /-! ### case mapping and white space (strings.ToUpper / ToLower / TrimSpace) -/
 
-/-- unicode.ToUpper on U+0000–U+00FF; identity elsewhere (see header) -/
-def goUpper (c : Char) : Char :=
-  let n := c.toNat
-  if 'a'.toNat ≤ n ∧ n ≤ 'z'.toNat then Char.ofNat (n - 32)
-  else if n = 0xB5 then Char.ofNat 0x39C
-  else if 0xE0 ≤ n ∧ n ≤ 0xFE ∧ n ≠ 0xF7 then Char.ofNat (n - 32)
-  else if n = 0xFF then Char.ofNat 0x178
-  else c
+/-- unicode.ToUpper (strings.ToUpper maps rune by rune): Go's simple case mapping over the regenerated table -/
+def goUpper (c : Char) : Char := Pcore.UnicodeCase.toUpper Pcore.Generated.caseRanges c
 
-def goLower (c : Char) : Char :=
-  let n := c.toNat
-  if 'A'.toNat ≤ n ∧ n ≤ 'Z'.toNat then Char.ofNat (n + 32)
-  else if 0xC0 ≤ n ∧ n ≤ 0xDE ∧ n ≠ 0xD7 then Char.ofNat (n + 32)
-  else c
+/-- unicode.ToLower -/
+def goLower (c : Char) : Char := Pcore.UnicodeCase.toLower Pcore.Generated.caseRanges c
 
 /-- unicode.IsSpace -/
 def isSpace (c : Char) : Bool :=
